@@ -47,12 +47,12 @@ def extend(claim, NA):
           'pre-emption at statement boundaries outside lock bodies (+ worker loop condition operands); schedule prefixes of length 10/7; 12 producer patterns x 5 latency patterns; real OS threads not explored.',
           'solver-exhausted schedule vectors (CrossHair realize + z3) over AST-instrumented thread bodies of the real code', '3/C09')
     claim('C12',
-          'Claimed for the local backend, stream wrappers and requires_auth: fault point x number of consecutive OSErrors x operation x payload size x wrapping are digits of a symbolic vector exhausted by z3 through CrossHair over the real Local methods under the real backoff decorator; wrapper forwarding is traced with symbolic arguments (CrossHair+z3). S3/B2 HTTP retry paths are not claimed.',
-          'backoff waits stubbed; OSErrors injected at 7/6 points of a transfer; S3-compatible and B2 adapters outside the claim.',
+          'Fault point x number of consecutive faults x operation x payload size x wrapping are digits of a symbolic vector exhausted by z3 through CrossHair over the real Local methods under the real backoff decorator and over the real S3-compatible and B2 adapters against fake services (HTTP 5xx/429, connection failures, dropped downloads, expired tokens); wrapper forwarding is traced with symbolic arguments (CrossHair+z3). Known finding F10 (B2 never-ending 5xx).',
+          'backoff waits stubbed/virtual; OSErrors injected at 7/6 points of a local transfer; S3/B2 services are fakes written from the public API descriptions.',
           'solver-exhausted fault vectors (CrossHair realize + z3) over the real local backend + symbolic execution of stream wrappers', '3/C12')
     claim('C13',
-          'Claimed for the local backend: per-name action sequences and the repository path spelling are digits of a symbolic vector exhausted by z3 through CrossHair; the real backend is compared with a dict through exists/download/download_stream and list_files for 14 prefixes. Known finding F11 (names ending in .tmp are not listed). S3/B2 not claimed.',
-          '7 names, 7 action sequences per name, 9 spellings, 14 prefixes; S3-compatible and B2 adapters outside the claim.',
+          'Per-name action sequences, the repository path spelling (local) and the listing page size (S3/B2 against fake services) are digits of a symbolic vector exhausted by z3 through CrossHair; each real backend is compared with a dict through exists/download/download_stream and list_files for 14 prefixes. Known finding F11 (local: names ending in .tmp are not listed).',
+          '7-9 names, 7 action sequences per name, 9 spellings, 14 prefixes, pages of 1/2/1000; S3/B2 services are fakes written from the public API descriptions; request signing not checked.',
           'solver-exhausted operation/spelling vectors (CrossHair realize + z3) against a reference map', '3/C13')
     claim('C14',
           'Bounded solver-based check: location helpers, name derivation, the lifted chunk producer (symbolic chunk plaintexts, idealised crypto: exact term structure of the stored object and its name), attribution/plan tiling and byte-string tagging are traced by CrossHair+z3; both directions of a differential against an independent reader/writer (hashlib+cryptography only) are exhausted over configuration x tree x segmentation vectors.',
